@@ -23,7 +23,9 @@ BUDGET = {"quick": 120, "thorough": 900}
 VALS = [0.0, -0.0, 1e-9, -1e-9, 4.9e-9, -4.9e-9, 5.1e-9, -5.1e-9, 0.123456789, -0.123456789, 1.0, -1.0, 12345.678901234,
         -12345.678901234, 999999.99999999, -999999.99999999, 1e6, -1e6, 1.00000000499, 2.5e-8, 123.000000005]
 COMMENTS = [None, "", " ", "#x", "H 0 0 0", "3", "café αβ →", "x" * 200, "a\tb\tc", "  leading and trailing  ",
-            "1.0 2.0 3.0 4.0"]
+            "1.0 2.0 3.0 4.0",
+            # characters that str.splitlines() treats as line boundaries but that do not end a line of an XYZ file
+            "step 3\x0cH 0.0 0.0 0.0", "a\x0bb", "a\x1cb\x1dc\x1ed", "a\x85b", "a\u2028b\u2029c", "a\rb"]
 
 
 def items(tier, seed):
@@ -117,14 +119,19 @@ def _pairs(item, out):
     rng = np.random.RandomState(1234 + seed)
     u = rng.normal(size=3)
     u /= np.linalg.norm(u)
-    origin = rng.uniform(-5, 5, size=3)
+    origins = [rng.uniform(-5, 5, size=3), np.array([1e6, 1e6, 1e6]) - rng.uniform(0, 1, size=3),
+               np.array([-9.9e5, 7.3e5, 1.0e5])]
     bfd = BondsFromDistance()
     for z1 in range(item["lo"], item["hi"]):
         for z2 in range(1, 119):
             c = G.cutoff(z1, z2)
             for f, exp in ((1 - 1e-6, 1), (1 + 1e-6, 0), (0.98, 1), (1.02, 0), (0.5, 1), (3.0, 0)):
                 d = c * f
+                # near the origin and translated by ~1e6 (float64 keeps ~1e-10 A there; the 1e-6 relative margin is far above)
+                origin = origins[(z1 + z2 + int(f * 10)) % 3] if f in (1 - 1e-6, 1 + 1e-6) else origins[0]
                 xyz = np.array([origin, origin + u * d])
+                if abs(np.linalg.norm(xyz[1] - xyz[0]) - d) > 1e-8:
+                    continue
                 out["evals"] += 1
                 out["distinct"] += 1
                 key = "bonded" if exp else "not-bonded"
